@@ -47,7 +47,7 @@
                               ("!p.busyActions[index] && !event.IsTimeoutKind()"): an action that is collecting a
                               run is handed EVERY event of its stream, so a non-matching event ends the run like
                               any other non-continuing event instead of overtaking the held one. *)
-EXTENDS Integers, Sequences, FiniteSets, TLC, Json
+EXTENDS Integers, Sequences, FiniteSets, TLC, Json, JoinOracle
 
 CONSTANTS MaxLen1,        \* maximal sequence length, one template, chain "none"
           MaxLen2,        \* maximal sequence length, two templates, chain "none"
@@ -76,11 +76,7 @@ VARIABLES cs,             \* the case: [nt, neg, M, pre, seq]
 vars == <<cs, i, to, toMis, isJoining, buff, curT, busy, blocked, lastAction, out, dev, pc, stack, resume>>
 
 -----------------------------------------------------------------------------
-(* classes *)
-StartCls == {"S1", "S2"}
-TOf(c) == IF c = "S1" THEN 1 ELSE 2
-CName(t) == IF t = 1 THEN "C1" ELSE "C2"
-
+(* classes (StartCls, TOf, CName and the declarative statement Output / SeqOK: JoinOracle.tla) *)
 ClassesOf(nt, pre) == {"S1", "C1", "O", "NF", "NS"}
                       \cup (IF nt = 2 THEN {"S2", "C2"} ELSE {})
                       \cup (IF pre = "discard" THEN {"D"} ELSE {})
@@ -96,72 +92,13 @@ SeqsOver(S, n) == UNION {[1..m -> S] : m \in 0..n}
 JI == IF cs.pre \in {"none", "sel", "post"} THEN 0 ELSE 1      \* index of the join in the chain
 
 -----------------------------------------------------------------------------
-(* ---------------- the declarative statement ---------------- *)
-
-\* positions of the events that are not removed by the discarding action, in order
-Vis(seq) == SelectSeq([k \in 1..Len(seq) |-> k], LAMBDA k : seq[k] # "D")
-
-\* does class c continue a run opened under template t?  (ns = "pattern": a non-string value, and the value of
-\* an event that does not satisfy the join's selector, is judged by its rendering, which matches no pattern;
-\* ns = "never": such an event never continues -- the statement does not say which, both are accepted.
-\* Without negate both readings agree: such an event is a non-continuing event and closes the run.)
-ContC(neg, t, c, ns) ==
-  /\ c \notin {"NF", "B", "S1", "S2", "XN"}
-  /\ IF c \in {"NS", "XO"} /\ ns = "never" THEN FALSE ELSE ((c = CName(t)) # neg[t])
-
-TOBetween(T, p, q) == \E x \in T : p <= x /\ x < q
-
-\* P = visible positions; a = index (into P) of a start event; the run a..j is unbroken
-Extends(seq, neg, T, ns, P, a, j) ==
-  \A m \in (a + 1)..j : /\ ContC(neg, TOf(seq[P[a]]), seq[P[m]], ns)
-                        /\ ~TOBetween(T, P[m - 1], P[m])
-RunEnd(seq, neg, T, ns, P, a) ==
-  CHOOSE b \in a..Len(P) : /\ Extends(seq, neg, T, ns, P, a, b)
-                           /\ (b = Len(P) \/ ~Extends(seq, neg, T, ns, P, a, b + 1))
-LastStart(seq, P, j) ==
-  LET S == {a \in 1..j : seq[P[a]] \in StartCls}
-  IN IF S = {} THEN 0 ELSE CHOOSE a \in S : \A x \in S : x <= a
-InRun(seq, neg, T, ns, P, j) ==
-  LET a == LastStart(seq, P, j) IN a # 0 /\ j <= RunEnd(seq, neg, T, ns, P, a)
-\* a run is closed (must have been flushed) when a later event of the stream arrived or a time-out did
-Closed(seq, neg, T, ns, P, a) ==
-  LET b == RunEnd(seq, neg, T, ns, P, a) IN b < Len(P) \/ \E x \in T : x >= P[b]
-
-Item(seq, neg, T, ns, P, j) ==
-  IF seq[P[j]] \in StartCls
-    THEN IF Closed(seq, neg, T, ns, P, j)
-           THEN <<[k |-> "j", ids |-> [m \in 1..(RunEnd(seq, neg, T, ns, P, j) - j + 1) |-> P[j + m - 1]]]>>
-           ELSE <<>>                                   \* still held: nothing may be demanded yet
-    ELSE IF InRun(seq, neg, T, ns, P, j) THEN <<>>
-         ELSE <<[k |-> "p", ids |-> <<P[j]>>]>>
-
-\* some run is still open: no later event and no time-out has closed it yet
-Pending(seq, neg, T, ns) ==
-  LET P == Vis(seq) IN \E a \in 1..Len(P) : seq[P[a]] \in StartCls /\ ~Closed(seq, neg, T, ns, P, a)
-
-RECURSIVE ItemsFrom(_, _, _, _, _, _)
-ItemsFrom(seq, neg, T, ns, P, j) ==
-  IF j > Len(P) THEN <<>>
-  ELSE Item(seq, neg, T, ns, P, j) \o ItemsFrom(seq, neg, T, ns, P, j + 1)
-
-\* Output(seq, TO): what the next stage must have received, in order
-Output(seq, neg, T, ns) == ItemsFrom(seq, neg, T, ns, Vis(seq), 1)
+(* ---------------- the declarative statement: JoinOracle.tla; here only the chain "post" wrapper ---------------- *)
 
 \* chain "post": the action after the join removes the events that carry its mark -- passed events and whole
 \* flushed runs (the joined event is the run's first event, with its other fields)
 Strip(seq) == [k \in 1..Len(seq) |-> IF seq[k] \in DropCls THEN Content(seq[k]) ELSE seq[k]]
 OutputX(seq, neg, T, ns) ==
   SelectSeq(Output(Strip(seq), neg, T, ns), LAMBDA it : seq[it.ids[1]] \notin DropCls)
-
-\* "up to the configured size limit": the joined field is a prefix of the full concatenation; complete
-\* when the run fits, otherwise nothing below the limit is lost
-IsPrefix(s, t) == Len(s) <= Len(t) /\ SubSeq(t, 1, Len(s)) = s
-ItemOK(o, e, M) ==
-  /\ o.k = e.k
-  /\ IF e.k = "p" THEN o.ids = e.ids
-     ELSE /\ o.ids # <<>> /\ IsPrefix(o.ids, e.ids)
-          /\ IF M = 0 \/ Len(e.ids) <= M THEN o.ids = e.ids ELSE Len(o.ids) >= M
-SeqOK(os, es, M) == Len(os) = Len(es) /\ \A n \in 1..Len(os) : ItemOK(os[n], es[n], M)
 
 -----------------------------------------------------------------------------
 (* ---------------- the transcription ---------------- *)
